@@ -6,6 +6,7 @@ import (
 	"fmt"
 	"math/rand"
 	"sort"
+	"strings"
 )
 
 // RandCfg parameterises the seeded adversary. Weights are relative.
@@ -19,6 +20,9 @@ type RandCfg struct {
 	Reads   bool           `json:"reads,omitempty"`
 	Snaps   bool           `json:"snaps,omitempty"`
 	Crashes bool           `json:"crashes,omitempty"`
+	// C16: after the random prelude keep the leader and a majority in prompt contact for this
+	// many adversary steps, during which only the remaining nodes are attacked
+	HealthySteps int `json:"healthy_steps,omitempty"`
 }
 
 var defaultW = map[string]int{
@@ -205,6 +209,137 @@ func (r *Runner) random(cfg *RandCfg) {
 			r.Do(Stim{Op: "snapnow", N: pickNode(up)})
 		}
 	}
+	if cfg.HealthySteps > 0 {
+		r.healthyPhase(rng, cfg, all)
+	}
+}
+
+// healthyPhase: leader L and a majority M are put on a prompt automatic network with free
+// timers; every link touching another node stays under the adversary, as do those nodes'
+// timers, crashes and restarts. Health is established first (L still leads and M follows in
+// L's term after two election timeouts) and only then announced to the monitor.
+func (r *Runner) healthyPhase(rng *rand.Rand, cfg *RandCfg, all []string) {
+	c := r.c
+	var leader string
+	var up []string
+	for _, id := range all {
+		n := c.node(id)
+		if n.running {
+			up = append(up, id)
+			if n.r.Status().State == 0 {
+				if leader != "" {
+					return
+				}
+				leader = id
+			}
+		}
+	}
+	need := len(r.sc.Voters)/2 + 1
+	if leader == "" || len(up) < need {
+		return
+	}
+	maj := []string{leader}
+	perm := rng.Perm(len(up))
+	for _, k := range perm {
+		if len(maj) < need && up[k] != leader {
+			maj = append(maj, up[k])
+		}
+	}
+	sort.Strings(maj)
+	inMaj := map[string]bool{}
+	for _, id := range maj {
+		inMaj[id] = true
+	}
+	var minority []string
+	for _, id := range all {
+		if !inMaj[id] {
+			minority = append(minority, id)
+			r.Do(Stim{Op: "hold", From: id})
+			r.Do(Stim{Op: "hold", To: id})
+			r.Do(Stim{Op: "gateonly", N: id})
+		}
+	}
+	if len(minority) == 0 {
+		return
+	}
+	// crashes armed during the prelude must not hit the majority later
+	c.mu.Lock()
+	for _, id := range maj {
+		c.nodes[id].crashAt = 0
+	}
+	c.mu.Unlock()
+	r.Do(Stim{Op: "auto", On: true})
+	r.Do(Stim{Op: "adv", D: 700})
+	st := c.node(leader).r.Status()
+	if st.State != 0 {
+		return
+	}
+	for _, id := range maj {
+		s2 := c.node(id).r.Status()
+		if s2.Term != st.Term || (id != leader && s2.State != 1) {
+			return
+		}
+	}
+	// The period starts from a state in which no other node is already ahead of the leader
+	// in term: a higher term acquired earlier (through a prevote that was won while the
+	// cluster had no leader) deposes any leader on first contact and is not what the
+	// property is about; terms that grow *during* the period are.
+	for _, id := range minority {
+		n := c.node(id)
+		c.mu.Lock()
+		pt := n.pterm
+		c.mu.Unlock()
+		if uint64(pt) > st.Term || (n.running && n.r.Status().Term > st.Term) {
+			return
+		}
+	}
+	r.Do(Stim{Op: "healthy", N: leader, Val: strings.Join(maj, ","), On: true})
+	valSeq := 1000
+	for step := 0; step < cfg.HealthySteps; step++ {
+		var reqs, resps []*RPC
+		for _, p := range c.net.Pending() {
+			if p.Phase == 0 {
+				reqs = append(reqs, p)
+			} else if p.Phase == 2 {
+				resps = append(resps, p)
+			}
+		}
+		var upMin, downMin []string
+		for _, id := range minority {
+			if c.node(id).running {
+				upMin = append(upMin, id)
+			} else {
+				downMin = append(downMin, id)
+			}
+		}
+		x := rng.Intn(100)
+		switch {
+		case x < 25 && len(reqs) > 0:
+			p := reqs[rng.Intn(len(reqs))]
+			r.doRPC(Stim{Op: "deliver", Kind: p.Kind, From: p.From, To: p.To}, p)
+		case x < 45 && len(resps) > 0:
+			p := resps[rng.Intn(len(resps))]
+			r.doRPC(Stim{Op: "reply", Kind: p.Kind, From: p.From, To: p.To}, p)
+		case x < 50 && len(reqs) > 0:
+			p := reqs[rng.Intn(len(reqs))]
+			r.doRPC(Stim{Op: "dropreq", Kind: p.Kind, From: p.From, To: p.To}, p)
+		case x < 70 && len(upMin) > 0:
+			r.Do(Stim{Op: "fire", N: upMin[rng.Intn(len(upMin))]})
+		case x < 80:
+			r.Do(Stim{Op: "adv", D: []int{10, 50, 100, 350}[rng.Intn(4)]})
+		case x < 84 && len(upMin) > 0 && cfg.Crashes:
+			r.Do(Stim{Op: "crash", N: upMin[rng.Intn(len(upMin))]})
+		case x < 90 && len(downMin) > 0:
+			r.Do(Stim{Op: "restart", N: downMin[rng.Intn(len(downMin))]})
+		case x < 95:
+			valSeq++
+			r.Do(Stim{Op: "submit", N: leader, Val: fmt.Sprintf("h%d", valSeq), K: 0, TO: 1000})
+		default:
+			r.Do(Stim{Op: "adv", D: 20})
+		}
+	}
+	r.Do(Stim{Op: "adv", D: 100})
+	r.Do(Stim{Op: "healthy", N: leader, Val: strings.Join(maj, ","), On: false})
 }
 
 // doRPC executes an rpc stimulus on the very rpc the adversary picked (the recorded
